@@ -53,7 +53,144 @@ for rec, fields in KEYS.items():
                          stubs=['hash_value__p_\\w+', 'opt_\\w+', 'cstring__\\w+'], timeout=600,
                          note='loop-free: complete for all pairs of values. CRC32 uninterpreted (A9).'))
 
-TRUSTED_BASE = ['A9 CRC32 intrinsics uninterpreted', 'A7/A8: BlockTable<T>::add/find/record_last_key over std::deque and std::unordered_map are NOT under contract '
-                '(libstdc++ containers are outside the lowering): de-duplication is claimed only as far as equality/hash agreement, clear() and the '
-                'call counting of the add_* units go', 'object representation of std::string depends on the object address']
-ASSUMPTIONS = ['ClassType and Question are hashed over their object representation (no padding: 2x uint16 / 2x uint32) - agreement holds trivially']
+
+# ---------------------------------------------------------------- BlockTable<T> itself (real template instantiations)
+from ctypes_lower import LowerError
+MANGLED = {'StringItem': '10StringItem', 'ClassType': '9ClassType', 'QueryResponseSignature': '22QueryResponseSignature', 'IndexListItem': '13IndexListItem',
+           'Question': '8Question', 'RR': '2RR', 'MalformedMessageData': '20MalformedMessageData'}
+
+
+def val_eq(ast, L, rec, a, b):
+    """member-wise equality of two abstract values of record rec (all members, taken from the AST)"""
+    out = []
+    for f in ast.records[rec].get('inner', []):
+        if not (isinstance(f, dict) and f.get('kind') == 'FieldDecl'):
+            continue
+        n = f['name']
+        cls, t = L.types.classify(f['type'].get('desugaredQualType') or f['type']['qualType'])
+        x, y = '%s.%s' % (a, n), '%s.%s' % (b, n)
+        if cls in ('builtin', 'enum'):
+            out.append('%s == %s' % (x, y))
+        elif cls == 'str':
+            out.append('%s.id == %s.id && %s.len == %s.len' % (x, y, x, y))
+        elif cls == 'opt':
+            ic = L.types.classify(t.args[0])[0]
+            v = ('%s.val.id == %s.val.id && %s.val.len == %s.val.len' % (x, y, x, y)) if ic == 'str' else ('%s.val == %s.val' % (x, y))
+            if ic not in ('builtin', 'enum', 'str'):
+                raise LowerError('val_eq: optional of %s' % ic)
+            out.append('((%s.has != 0) == (%s.has != 0)) && (!%s.has || (%s))' % (x, y, x, v))
+        elif cls in ('vec', 'deq'):
+            out.append('%s.n == %s.n && %s.wi == %s.wi && %s.wv == %s.wv' % (x, y, x, y, x, y))
+        else:
+            raise LowerError('val_eq: member %s of class %s' % (n, cls))
+    return '(' + ' && '.join(out) + ')'
+
+
+def bt_req(rec):
+    return '''
+__CPROVER_requires(__CPROVER_w_ok($this, sizeof(*$this)) && g_exc == 0)
+__CPROVER_requires($this->items_.n < (1UL << 31) && $this->indexes_.n <= $this->items_.n)
+__CPROVER_requires(g_present ==> g_pidx < $this->items_.n)
+__CPROVER_requires(g_finds == 0 && g_stores == 0)
+'''
+
+
+def c_index(rec):
+    def gen(ast, L, tf):
+        return '''
+__CPROVER_requires(__CPROVER_r_ok($this, sizeof(*$this)) && g_exc == 0)
+__CPROVER_assigns(seq_%(r)s__cur, g_exc)
+__CPROVER_ensures(g_exc == 0 || g_exc == EXC_runtime_error)
+__CPROVER_ensures((g_exc == 0) == ((unsigned long)$1 < $this->items_.n))
+__CPROVER_ensures((g_exc == 0 && (unsigned long)$1 == $this->items_.wi) ==> $ret == &$this->items_.wv)
+__CPROVER_ensures((g_exc == 0 && (unsigned long)$1 != $this->items_.wi) ==> $ret == &seq_%(r)s__cur)
+''' % {'r': rec}
+    return gen
+
+
+def c_find(rec):
+    def gen(ast, L, tf):
+        return bt_req(rec) + '''
+__CPROVER_requires(__CPROVER_r_ok($1, sizeof(*$1)) && __CPROVER_w_ok($2, sizeof(*$2)))
+__CPROVER_assigns(*$2, umap_KeyRef_%(r)s_u32__cur, g_finds, g_find_key)
+__CPROVER_ensures(g_exc == 0 && g_finds == 1 && g_find_key == (void *)$1)
+__CPROVER_ensures(($ret != 0) == (g_present != 0))
+__CPROVER_ensures($ret ==> (*$2 == (unsigned int)g_pidx && (unsigned long)*$2 < $this->items_.n))
+__CPROVER_ensures(!$ret ==> *$2 == @I0)
+''' % {'r': rec}
+    return gen
+
+
+def c_add_value(rec):
+    def gen(ast, L, tf):
+        return bt_req(rec) + '''
+__CPROVER_requires(__CPROVER_r_ok($1, sizeof(*$1)))
+__CPROVER_assigns($this->items_, $this->indexes_.n, seq_%(r)s__cur, umap_KeyRef_%(r)s_u32__cur, g_stores, g_find_key)
+__CPROVER_ensures(g_exc == 0 && $this->items_.n == @N0 + 1 && $ret == (unsigned int)@N0)
+__CPROVER_ensures($this->items_.wi == @N0 ==> %(eq_new)s)
+__CPROVER_ensures($this->items_.wi < @N0 ==> %(eq_old)s)
+__CPROVER_ensures(g_stores == 1 && umap_KeyRef_%(r)s_u32__cur.second == (unsigned int)@N0)
+__CPROVER_ensures(g_find_key == ($this->items_.wi == @N0 ? (void *)&$this->items_.wv : (void *)&seq_%(r)s__cur))
+__CPROVER_ensures($this->indexes_.n == @M0 + (g_present ? 0UL : 1UL) && $this->indexes_.n <= $this->items_.n)
+''' % {'r': rec, 'eq_new': val_eq(ast, L, rec, '$this->items_.wv', '(*$1)'), 'eq_old': val_eq(ast, L, rec, '$this->items_.wv', '@W0')}
+    return gen
+
+
+def c_add(rec):
+    def gen(ast, L, tf):
+        return bt_req(rec) + '''
+__CPROVER_requires(__CPROVER_r_ok($1, sizeof(*$1)))
+__CPROVER_assigns($this->items_, $this->indexes_.n, seq_%(r)s__cur, umap_KeyRef_%(r)s_u32__cur, g_finds, g_stores, g_find_key)
+__CPROVER_ensures(g_exc == 0 && (unsigned long)$ret < $this->items_.n)
+__CPROVER_ensures(g_present ==> ($ret == (unsigned int)g_pidx && $this->items_.n == @N0 && $this->indexes_.n == @M0 && g_stores == 0))
+__CPROVER_ensures(!g_present ==> ($ret == (unsigned int)@N0 && $this->items_.n == @N0 + 1 && $this->indexes_.n == @M0 + 1 && g_stores == 1))
+__CPROVER_ensures((!g_present && $this->items_.wi == @N0) ==> %(eq_new)s)
+__CPROVER_ensures($this->items_.wi < @N0 ==> %(eq_old)s)
+__CPROVER_ensures(g_finds == 1)
+''' % {'r': rec, 'eq_new': val_eq(ast, L, rec, '$this->items_.wv', '(*$1)'), 'eq_old': val_eq(ast, L, rec, '$this->items_.wv', '@W0')}
+    return gen
+
+
+def c_clear(rec):
+    return '''
+__CPROVER_requires(__CPROVER_w_ok($this, sizeof(*$this)) && g_exc == 0)
+__CPROVER_assigns($this->items_.n, $this->indexes_.n)
+__CPROVER_ensures(g_exc == 0 && $this->items_.n == 0 && $this->indexes_.n == 0)
+'''
+
+
+BT_OPQ = {'@real': 'BlockTable KeyRef'}
+BT_STUBS = ['seq_[A-Za-z0-9_]+__(push_back|clear|size|at|back)', 'umap_[A-Za-z0-9_]+__(index|find|clear)', 'cstring__[a-z]+']
+BT_AUTO = [r'[A-Za-z_]+__ctor__\w+', r'[A-Za-z]+__key']
+for rec, mg in MANGLED.items():
+    pre = '_ZN4CDNS10BlockTableINS_%sES1_E' % mg
+    prek = '_ZNK4CDNS10BlockTableINS_%sES1_E' % mg
+    setup = '  static struct BlockTable_%s obj;\n  __CPROVER_assume(obj.items_.n < (1UL << 31) && obj.indexes_.n <= obj.items_.n && (!g_present || g_pidx < obj.items_.n));\n  g_finds = 0; g_stores = 0;\n' % rec
+    gh = [('unsigned long', 'N0', '$this->items_.n'), ('unsigned long', 'M0', '$this->indexes_.n'), ('struct ' + rec, 'W0', '$this->items_.wv')]
+    common = dict(prelude='btr.h', opaque=BT_OPQ, stubs=BT_STUBS, auto_inline=BT_AUTO, props=['C11', 'C03'], timeout=600)
+    UNITS.append(Unit('btr.%s.index' % rec, ('@' + prek + 'ixEj', None), contract=c_index(rec), setup='  static struct BlockTable_%s obj; unsigned int a_pos;\n' % rec,
+                      args=['&obj', 'a_pos'], post='  if (g_exc != 0) { CANARY("out-of-range index reachable"); }',
+                      note='operator[]: returns the element iff the index is below size(), otherwise raises; never touches storage out of bounds', **common))
+    UNITS.append(Unit('btr.%s.find' % rec, ('@' + pre + '4findERKS1_Rj', None), contract=c_find(rec), ghost=[('unsigned int', 'I0', '*$2')],
+                      setup=setup + '  static struct %s a_key; unsigned int a_idx;\n' % rec, args=['&obj', '&a_key', '&a_idx'],
+                      note='find: queries the index map once with the given key; reports the stored index iff an equal key is present, leaves the output alone otherwise', **common))
+    rv = rec in ('StringItem', 'IndexListItem')      # only add_value(T&&) is instantiated for these two (CdnsBlock looks the key up itself)
+    UNITS.append(Unit('btr.%s.add_value' % rec, ('@' + pre + ('9add_valueEOS1_' if rv else '9add_valueERKS1_'), None), contract=c_add_value(rec), ghost=gh,
+                      inline=[('@' + pre + '15record_last_keyEv', None)], setup=setup + '  static struct %s a_val;\n' % rec, args=['&obj', '&a_val'],
+                      note='add_value: appends exactly the given value at index old size, leaves existing entries alone, records the new index under a key that refers to the stored copy', **common))
+    if not rv:
+      UNITS.append(Unit('btr.%s.add' % rec, ('@' + pre + '3addERKS1_', None), contract=c_add(rec), ghost=gh,
+                      inline=[('@' + pre + '15record_last_keyEv', None), ('@' + pre + '9add_valueERKS1_', None), ('@' + pre + '4findERKS1_Rj', None)],
+                      setup=setup + '  static struct %s a_val;\n' % rec, args=['&obj', '&a_val'],
+                      post='  if (g_present) { CANARY("equal key present reachable"); }',
+                      note='add: an equal key present => its index, table unchanged; otherwise appended at index old size; existing entries never change (indices stay valid)', **common))
+    UNITS.append(Unit('btr.%s.clear' % rec, ('@' + pre + '5clearEv', None), contract=c_clear(rec), setup='  static struct BlockTable_%s obj;\n' % rec, args=['&obj'],
+                      note='clear: both the entries and the index map are emptied', **common))
+
+TRUSTED_BASE = ['A9 CRC32 intrinsics uninterpreted',
+                'A7 std::deque<T> as an abstract sequence with one watched element; references to elements stay valid on push_back',
+                'A8 std::unordered_map<KeyRef<T>, index_t>: a lookup finds an entry iff a key equal (operator==) to the queried one is stored, given the equality/hash '
+                'agreement of the bt.eqhash.* units; representation invariant "stored index < size, stored under the key of the element with that index" assumed on lookup',
+                'object representation of std::string depends on the object address', 'cdns2c lowering of the real template instantiations; CBMC 6.11 dfcc; cadical']
+ASSUMPTIONS = ['ClassType and Question are hashed over their object representation (no padding: 2x uint16 / 2x uint32) - agreement holds trivially',
+               'table sizes < 2^31 (index_t is 32 bits)']
